@@ -3,7 +3,8 @@
 proof  : coq/Equiv_Model.v (assemble stages of the deterministic methods over an abstract field),
          coq/Equiv_Spec.v (permutations, orthogonal maps, eigen-oracle contracts, statics allow-list),
          coq/Equiv_Proof_*.v, coq/Equiv_Effects.v (how the allow-listed process state can reach a call),
-         coq/Properties_C12.v (51 theorems); connectivity decision: C03's model.
+         coq/Equiv_Proof_Ties.v (selection among equally distant candidates; covariance from centred vectors),
+         coq/Properties_C12.v (58 theorems); connectivity decision: C03's model.
 tie    : (T) translate/t_static.py regenerates the inventory of static-storage objects / rand consumers
              from the current headers (clang AST matchers); it must equal coq/gen/Statics.v, or the
              regenerated table must still satisfy `inventory_ok` (re-checked by coqc);
@@ -28,6 +29,12 @@ tie    : (T) translate/t_static.py regenerates the inventory of static-storage o
          (N) neighbour stream: tapkee_internal::find_neighbors (brute / vptree / covertree, plain and kernel
              distance, with and without the connectivity doubling) on tie-free data and its permuted image:
              same number of neighbours, neighbour SETS relabelled;
+         (Ti) tied-data stream: integer lattices with exact distance ties under the transformations that keep the
+             sample order and the order relations of the distance table (exact scalings c - not only powers of two -,
+             signed coordinate permutations, integer translations up to 1e12): neighbour SETS of find_neighbors
+             unchanged (brute / vptree / covertree), geodesics and solver matrix of the Isomap embed() body on integer
+             lattice metrics scaled exactly (extracted checker), embeddings bit-identical / scaled by |c|, and the
+             same call repeated in one process bit-identical;
          (H) history stream: sequences of 2-6 embed calls in one process (other methods, every consumer of the
              random stream, failing calls, logger level changes, calls that read the default_* objects) against
              fresh-process runs, bitwise, one thread; after EVERY embed call the driver reports the draws of
@@ -77,8 +84,12 @@ TRUSTED = [
 ASSUMPTIONS = [
     "permutations are bijections of the sample indices; R^T R = I exactly (rotations and reflections)",
     "callbacks are symmetric functions of the pair (distance / kernel tables are symmetric)",
-    "neighbour lists all have the same length k (what the searches return since F1/F2) and no exact distance ties "
-    "at the k-th neighbour (ties are the freedom the k-NN specification leaves)",
+    "neighbour lists all have the same length k (what the searches return since F1/F2); the PERMUTATION clauses "
+    "assume no exact distance ties at the k-th neighbour (ties are the freedom the k-NN specification leaves; known "
+    "finding C03-tied-distances-order-dependent-k); the scale / rigid-motion / history clauses are tested on tied "
+    "(integer lattice) data too: whatever picks the tied neighbour may look at distances and positions only",
+    "verdicts about the tree searches under a scaling of tied data are raised only when the binary64 distance table "
+    "is exactly a metric (C02's hypothesis; always true for {0,1,2}^D lattices and integer-valued lattice metrics)",
     "the selected eigenvalues are separated from the rest (otherwise the embedding itself is not determined)",
     "history independence is claimed for the deterministic methods with eigen_method = Dense and one OpenMP thread",
 ]
@@ -2288,7 +2299,15 @@ def run(ctx):
              "k-NN or arbitrary lists. Neighbour stream: N 8-40, D 1-5, k 2-8, plain / kernel distance, with and "
              "without connectivity doubling. History: 2-6 calls, deterministic call under test after deterministic, "
              "randomized (spe, ra, lmds, lisomap, fa, tsne, ms, randomized solver, vptree) and failing calls, logger "
-             "levels switched, em / nm keywords omitted; state probes (draws, shuffles, defaults) on every call.",
+             "levels switched, em / nm keywords omitted; state probes (draws, shuffles, defaults) on every call. "
+             "Tied stream (wave 3): integer lattices ({2,3}^D boxes D 2-4, side 4-7 lattices D 2-3, lines; subsets, "
+             "duplicates, shuffled order), find_neighbors pairs / Isomap-body pairs on chamfer(2,3), Chebyshev, L1 "
+             "lattice metrics with n in {8,16,32,64} / embed pairs (Isomap, LE), transformations: exact scalings "
+             "c in {3,5,7,10,6,12,11,9,100,1000,3/2,3/8,5/16,3/4,13/8,2,1/2,1/8}, signed coordinate permutations, integer "
+             "translations up to 1e12, combinations; each case also repeats the call under another rand state. "
+             "Metamorphic stream (wave 3): + translations by 1e5..3e7 times the spread (non-kernel methods), exact "
+             "duplicate samples (non-permutation clauses; the noise probe keeps duplicates coincident), 32-40 features "
+             "for 14-30 samples, data at 2^+-100..200.",
         samples=samples,
         histogram={"cases": hist, "stats": stats, "search_phase": searched,
                    "statics_inventory_entries": len(tres.get("entries", []))},
